@@ -30,7 +30,7 @@ pub fn c14(tier: Tier) -> ! {
     let lengths = [0.01, 0.5, 1., 3.7, 100.];
     // (a document can carry a ratio above one and an angle next to, but not at, a right angle)
     let ratios = [0.1, 0.34, 0.5, 0.73, 1., 1.5];
-    let angles = [PI / 6., 0.7, 1., 1.3, PI / 2. - 1e-3, PI / 2. - 9e-7, PI / 2. - 1e-9, PI / 2., PI / 2. + 9e-7, 2.0];
+    let angles = [PI / 6., 0.7, 1., 1.3, PI / 2. - 1e-3, PI / 2. - 9e-7, PI / 2. - 1e-9, PI / 2., PI / 2. + 9e-7, 2.0, 1e-5, PI - 2e-5];
     let families = ["Monoclinic", "Orthorhombic", "Hexagonal", "Tetragonal"];
     let fr: Vec<f64> = vec![-1.5, -1.0, -0.5, -0.25, 0., 0.1, 0.5, 1.0, 1.5];
     let rots = [0., 0.3, PI / 2., PI, 4.1];
@@ -397,7 +397,13 @@ pub fn c15(tier: Tier) -> ! {
         let p2_rev = vec![op(-1., 0., 0., -1., 0., 0.), op(1., 0., 0., 1., 0., 0.)];
         let centred = vec![op(1., 0., 0., 1., 0.5, 0.5), op(1., 0., 0., 1., 0., 0.)];
         let p4_rot: Vec<Aff> = p4.iter().cycle().skip(2).take(4).cloned().collect();
-        for (gname, family, ops) in [("p4", "Tetragonal", &p4), ("p3m1", "Hexagonal", &p3m1), ("glide along x with an offset", "Orthorhombic", &pgx), ("p2 listed two-fold first", "Monoclinic", &p2_rev), ("centred cell listed centring first", "Orthorhombic", &centred), ("p4 listed from the half turn", "Tetragonal", &p4_rot)].iter() {
+        // twelve operations (p6mm in lattice coordinates): more copies than any group shipped
+        let p6mm: Vec<Aff> = {
+            let six = [op(1., 0., 0., 1., 0., 0.), op(1., -1., 1., 0., 0., 0.), op(0., -1., 1., -1., 0., 0.), op(-1., 0., 0., -1., 0., 0.), op(-1., 1., -1., 0., 0., 0.), op(0., 1., -1., 1., 0., 0.)];
+            let m = op(0., 1., 1., 0., 0., 0.);
+            six.iter().cloned().chain(six.iter().map(|r| r.after(&m))).collect()
+        };
+        for (gname, family, ops) in [("p4", "Tetragonal", &p4), ("p3m1", "Hexagonal", &p3m1), ("glide along x with an offset", "Orthorhombic", &pgx), ("p2 listed two-fold first", "Monoclinic", &p2_rev), ("centred cell listed centring first", "Orthorhombic", &centred), ("p4 listed from the half turn", "Tetragonal", &p4_rot), ("p6mm", "Hexagonal", &p6mm)].iter() {
             let syms: Vec<Value> = ops.iter().map(|o| json!([o.m[0][0], o.m[1][0], 0., o.m[0][1], o.m[1][1], 0., o.t[0], o.t[1], 0.])).collect();
             for &x in [0.11, -0.5, 0.5, 0.3, 0.].iter() {
                 for &y in [-0.23, 0.5, 0.17, 0.].iter() {
@@ -526,6 +532,32 @@ pub fn c15(tier: Tier) -> ! {
             }
         }
     }
+    // the copies handed out for one call belong to one site: a parameter edited while the list is
+    // being read does not mix two sites
+    let mut partial = 0u64;
+    for g in GROUP_NAMES.iter() {
+        if let AnyState::Poly(st) = AnyState::from_group(g, &ShapeSpec::Polygon(3)) {
+            let basis = st.generate_basis();
+            let nb = basis.len();
+            drop(basis);
+            let before: Vec<Aff> = st.relative_positions().map(|t| Aff::from_t2(&t)).collect();
+            let mut it = st.relative_positions();
+            let mut got: Vec<Aff> = it.next().iter().map(Aff::from_t2).collect();
+            {
+                let mut b = st.generate_basis();
+                b[nb - 3].set_value(0.31);
+                b[nb - 1].set_value(1.7);
+            }
+            got.extend(it.map(|t| Aff::from_t2(&t)));
+            let after: Vec<Aff> = st.relative_positions().map(|t| Aff::from_t2(&t)).collect();
+            partial += 1;
+            let same = |a: &Vec<Aff>, b: &Vec<Aff>| a.len() == b.len() && a.iter().zip(b.iter()).all(|(p, q)| p.m == q.m && p.t == q.t);
+            if !(same(&got, &before) || same(&got, &after)) {
+                run.fail(None, &format!("{}: the copies read while a site parameter was edited belong neither to the site before the edit nor to the site after it", g), json!({"engine": "partial", "group": g}));
+            }
+        }
+    }
+    run.set("placement_lists_read_across_an_edit", partial);
     run.set("live_object_edits_compared", live_checks);
     run.set("evaluations", evals + live_checks);
     run.set("distinct_nontrivial", evals);
